@@ -10,7 +10,7 @@ from vt.core import Checker, lib, dense, dense_abs, DT, UNIT, fro
 RULE = ("Hypothesis draws y = c + z*z (c in {1,0.5,3}, z a Gaussian TT of ranks 1-2 rescaled to max|z| in {0.3,1,2}, so "
         "all entries of y lie in [c, c+4]), x a Gaussian TT of ranks 1-4, order 2-5, modes 1-10, and a form: x/y, s/y "
         "(s int, float, 0-d or one-element tensor), elementwise_divide(x,y,eps, preconditioner None/'c', starting "
-        "tensor None/random/one of the operands themselves, kick) with eps log-uniform in [1e-11,1e-3], elementwise_divide(scalar,y), and x/s. The seed "
+        "tensor None/random/one of the operands themselves, kick) with eps log-uniform in [1e-11,1e-3], elementwise_divide(scalar,y), and x/s. x and y are also multiplied by 10^{0,+-3,+-6}. The seed "
         "of the internal randomness is drawn. Oracle: q has the shape of y and ||dense(q)*dense(y) - dense(x)|| <= "
         "5 tol ||x|| (tol = eps, or 1e-12 for the operators) + roundoff; x/s exact/roundoff. Non-trivial: y has a rank>1 "
         "and some mode>=3.")
@@ -40,6 +40,8 @@ def strategy_case(draw):
         case["zmax"] = 2.0
         case["big"] = True
         d = k
+    case["scale_x"] = draw(st.sampled_from([0, 0, 0, 0, -6, -3, 3, 6]))
+    case["scale_y"] = draw(st.sampled_from([0, 0, 0, 0, -6, -3, 3, 6]))
     if form in ("s/y", "ediv_scalar", "x/s"):
         # x / s also with 0-d tensor scalars of another dtype (int64, float32): they do not promote the float64 TT
         case["s"] = draw(gen.scalar(["int", "float", "t0d", "t1"] + (["t0d_i64", "t0d_other"] if form == "x/s" else [])))
@@ -75,6 +77,10 @@ def execute(case):
     if case.get("big"):
         ck.label("big_local_problems")
     xc = core.make_cores({"N": N, "R": case["Rx"], "dt": "f64", "mode": "gauss", "seed": case["seed"]})
+    if case.get("scale_x", 0):
+        kx = case["seed"] % d
+        xc[kx] = xc[kx] * (10.0 ** case["scale_x"])
+        ck.label("scaled_x")
     x = T.TT(core.clone_cores(xc))
     xd = dense(xc)
     if form == "x/s":
@@ -96,6 +102,13 @@ def execute(case):
     yd = dense(ycores)
     if not ck.require(float(yd.min()) > 0.2, "harness_precondition", "y not bounded away from zero"):
         raise core.HarnessError("generator produced y with entries near zero: min %g" % float(yd.min()))
+    if case.get("scale_y", 0):
+        # the clause is relative: y (still bounded away from zero relative to its size) is multiplied by 10^k
+        ky = (case["seed"] // 5) % d
+        ycores[ky] = ycores[ky] * (10.0 ** case["scale_y"])
+        y = T.TT(core.clone_cores(ycores))
+        yd = dense(ycores)
+        ck.label("scaled_y")
     torch.manual_seed(case["lib_seed"])
     tol = 1e-12
     if form == "x/y":
